@@ -354,6 +354,16 @@ def run_c09(tier, seed):
     long_docs += [TJ.to_text(B.ready_to_air(message_id=str(901 + k))) for k in range(5)]
     jobs.append(('long collection with 135 failures', long_docs, False, False, 'strings'))
     jobs.append(('long collection with 135 failures', long_docs, False, True, 'strings'))
+    # one failing message at the k-th position of a long collection (round numbers a progress counter or a batch might use):
+    # strict stops there, whatever k is; non-strict reports it and goes on
+    for kpos in (10, 16, 25, 32, 49, 50, 51, 64, 99, 100, 101, 128):
+        docs_k = [TJ.to_text(B.ro_doc([B.story('A', [B.item('a1')])], message_id='1'))]
+        for k in range(2, 132):
+            docs_k.append(TJ.to_text(B.story_insert('ZZ', [B.story(f'F{k}')], message_id=str(10 + k)) if k == kpos
+                                     else B.story_append([B.story(f'N{k}')], message_id=str(10 + k))))
+        docs_k.append(TJ.to_text(B.ro_delete(message_id='9000')))
+        for strict in (True, False):
+            jobs.append((f'one failing message at position {kpos} of {len(docs_k)}', docs_k, False, strict, 'strings' if kpos % 2 else 'files'))
     reqs = [model_req(docs, allow, strict) for (_, docs, allow, strict, _) in jobs]
     models = model_collection(reqs)
     for (hseed, docs, allow, strict, via), m in zip(jobs, models):
